@@ -176,7 +176,12 @@ func vRunCacheCase(t *testing.T, cs *vCacheCase) []string {
 				r.mu.Lock()
 				r.costs[v] = vi(op[4])
 				r.mu.Unlock()
-				res = fmt.Sprint(c.SetWithTTL(k, v, 0, time.Duration(vi(op[5]))))
+				explicit := int64(0)
+				if len(op) > 6 && op[6] == "x" {
+					// explicit non-zero cost: Config.Cost is not called for this item, the applier does not stop at the gate
+					explicit = vi(op[4])
+				}
+				res = fmt.Sprint(c.SetWithTTL(k, v, explicit, time.Duration(vi(op[5]))))
 			case "get":
 				v, ok := c.Get(r.key(vu(op[1]), vu(op[2])))
 				res = fmt.Sprintf("%d %v", v, ok)
